@@ -22,6 +22,13 @@ CLAIMED = {
          'property on the real code (element fluxes, road albedo in the reflection model, vegetation heat).',
          'Trusted: Lean kernel, standard axioms, fracexec rewrite. Road albedo inside solarcalcs is observed through mr '
          'with non-reflecting walls.', 'DESIGN.md section 4 C18'),
+ 'C20': ('Lean 4 theorems over every floor-ring ordered field (Nat.ceil arithmetic, induction over layers and depths) '
+         'tied to UWG._procmat and to the ground columns built by generate() by exact rational execution of the real source',
+         'Proof: refinement preserves thickness/resistance/capacity and yields >=2 sub-layers <=5 cm; padding picks the '
+         'first depth at or below the pavement and ends within one layer of it (exactly for whole-layer gaps). The model is '
+         'checked equal to the real _procmat and to the columns the real generate() builds on synthetic EPW headers.',
+         'Trusted: Lean kernel, standard axioms, fracexec. Float effects in ceil(droad/0.05) are outside the exact model. '
+         'The monthly deep temperature (T5) is checked on real runs, not proved.', 'DESIGN.md section 4 C20'),
 }
 NOT_YET = 'check not built yet in this session (work in progress; see DESIGN.md section 4)'
 
